@@ -263,9 +263,38 @@ def tables_of(content):
     return [t.get_table() for t in ts], [(t.get_dim().rows, t.get_dim().columns) for t in ts]
 
 
+LAST = {}
+
+
+def docx_anchor_check(ctx, B, tree, tabs, d=None):
+    """the anchor list is parallel to the table list: same length, never negative, never decreasing; for a structured
+    document a table's anchor is max(0, paragraphs before it - 1) and nested tables share their parent's anchor"""
+    anchors = LAST.get("docx_anchors", [])
+    B["docxanchor"].add(f"({coq_nd(tree)}, {coq_tables(tabs)}, {coq_list([coq_Z(a) for a in anchors])})", ("docxanchor", len(tabs)))
+    bad = None
+    if len(anchors) != len(tabs):
+        bad = f"{len(tabs)} tables but {len(anchors)} anchor indices"
+    elif any(a < 0 for a in anchors) or any(a > b for a, b in zip(anchors, anchors[1:])):
+        bad = f"anchor indices {anchors} are negative or decrease"
+    elif d is not None:
+        want, seen = [], 0
+        for b in d:
+            if b[0] == "p":
+                seen += 1
+            else:
+                nested = sum(1 for r in b[1] for c in r for it in c if it[0] == "t")
+                want += [max(0, seen - 1)] * (1 + nested)
+        if anchors != want:
+            bad = f"anchor indices {anchors}, expected {want} (paragraph blocks before each table - 1)"
+    if bad:
+        ctx.finding("docx-table-anchor-indices-misaligned", "DOCX: table_anchor_paragraph_indices: " + bad,
+                    {"format": "docx", "tables": tabs, "anchors": anchors, "doc": d})
+
+
 def docx_run(data: bytes):
     from sharepoint2text.parsing.extractors.ms_modern.docx_extractor import read_docx
     c = next(iter(read_docx(io.BytesIO(data))))
+    LAST["docx_anchors"] = list(getattr(c, "table_anchor_paragraph_indices", []))
     with zipfile.ZipFile(io.BytesIO(data)) as z:
         root = ET.fromstring(z.read("word/document.xml"))
     body = root.find("{%s}body" % NSMAP["w"])
@@ -970,10 +999,9 @@ class _FakeSheet:
 
 
 class _FakeBook:
-    datemode = 0
-
-    def __init__(self, sheets):
+    def __init__(self, sheets, datemode=0):
         self._s = sheets
+        self.datemode = datemode      # 0 = 1900 date system, 1 = 1904 (xlrd Book.datemode)
 
     def sheets(self):
         return self._s
@@ -990,26 +1018,51 @@ def xls_cells(rng):
     if k < 0.75:
         return Cell(xlrd.XL_CELL_NUMBER, rng.choice([1.0, 2.5, 0.0, -3.0, 1e20, 7.0]))
     if k < 0.85:
-        return Cell(xlrd.XL_CELL_DATE, rng.choice([45000.0, 45000.5, 0.25]))
+        return Cell(xlrd.XL_CELL_DATE, rng.choice([45000.0, 45000.5, 0.25, 45000.0, 36526.0, 1.0, 60.0, 61.0, 0.0]))
     if k < 0.95:
         return Cell(xlrd.XL_CELL_BOOLEAN, rng.choice([0, 1]))
     return Cell(xlrd.XL_CELL_ERROR, 7)
 
 
-def xls_run(grids):
-    """drive the real _read_content with an xlrd Book stand-in (xlrd's BIFF parsing is an oracle)"""
+def xls_expected_cell(c, datemode):
+    """(native value, header text) of a cell as the property states it, computed from xlrd alone:
+    text and numbers as they are (whole numbers as int), dates as the ISO text of xlrd's calendar for THIS
+    workbook's date system, booleans, errors as None / '#ERROR'"""
+    import xlrd
+    v = c.value
+    if c.ctype == xlrd.XL_CELL_EMPTY:
+        return None, ""
+    if c.ctype == xlrd.XL_CELL_TEXT:
+        return v, str(v)
+    if c.ctype == xlrd.XL_CELL_NUMBER:
+        return (int(v), str(int(v))) if v == int(v) else (v, str(v))
+    if c.ctype == xlrd.XL_CELL_DATE:
+        try:
+            d = xlrd.xldate_as_tuple(v, datemode)
+        except Exception:  # noqa
+            return v, str(v)
+        txt = f"{d[0]:04d}-{d[1]:02d}-{d[2]:02d}" + ("" if d[3:] == (0, 0, 0) else f" {d[3]:02d}:{d[4]:02d}:{d[5]:02d}")
+        return txt, txt
+    if c.ctype == xlrd.XL_CELL_BOOLEAN:
+        return bool(v), ("True" if v else "False")
+    if c.ctype == xlrd.XL_CELL_ERROR:
+        return None, "#ERROR"
+    return v, str(v)
+
+
+def xls_run(grids, datemode=0):
+    """drive the real _read_content with an xlrd Book stand-in (xlrd's BIFF parsing is an oracle).
+    -> (per sheet the expected (native, header text) of every cell, tables, dims)"""
     import xlrd
     from sharepoint2text.parsing.extractors.ms_legacy import xls_extractor as X
-    book = _FakeBook([_FakeSheet(f"S{i}", g) for i, g in enumerate(grids)])
+    book = _FakeBook([_FakeSheet(f"S{i}", g) for i, g in enumerate(grids)], datemode)
     orig = xlrd.open_workbook
     xlrd.open_workbook = lambda *a, **k: book
     try:
         sheets = X._read_content(io.BytesIO(b""))
     finally:
         xlrd.open_workbook = orig
-    per = []
-    for g in grids:
-        per.append([[(X._get_cell_values(c, book)[0], X._get_cell_value(c, book, as_string=True)) for c in r] for r in g])
+    per = [[[xls_expected_cell(c, datemode) for c in r] for r in g] for g in grids]
     return per, [s.get_table() for s in sheets], [(s.get_dim().rows, s.get_dim().columns) for s in sheets]
 
 
@@ -1847,6 +1900,59 @@ def env_result(case):
     return repr(([[[val_canon(v) for v in r] for r in t] for t in tabs], dims))
 
 
+def table_type_inventory(ctx):
+    """fail-closed: the classes with get_table()/get_dim() in data_types.py are exactly the modelled ones, and the
+    list-backed ones all compute get_dim the way TableData does (same AST)"""
+    import ast
+    import inspect
+    import textwrap
+    from sharepoint2text.parsing.extractors import data_types as DT
+    have = sorted(n for n, c in vars(DT).items() if inspect.isclass(c) and c.__module__ == DT.__name__
+                  and "get_table" in vars(c) and n != "TableInterface")
+    modelled = ["OdsSheet", "OdtTable", "RtfTable", "TableData", "XlsSheet", "XlsxSheet"]
+    ctx.obligation("inventory: table types of data_types.py are the modelled ones", have == modelled, f"found {have}, modelled {modelled}")
+    def norm(fn):
+        tree = ast.parse(textwrap.dedent(inspect.getsource(fn)))
+        f = tree.body[0]
+        body = [s for s in f.body if not (isinstance(s, ast.Expr) and isinstance(getattr(s, "value", None), ast.Constant))]
+        return ast.dump(ast.Module(body=body, type_ignores=[]))
+    ref_dim, ref_tab = norm(DT.TableData.get_dim), norm(DT.TableData.get_table)
+    bad = [n for n in ("OdsSheet", "OdtTable", "RtfTable", "XlsxSheet") if n in have
+           and (norm(getattr(DT, n).get_dim) != ref_dim or norm(getattr(DT, n).get_table) != ref_tab)]
+    ctx.obligation("inventory: list-backed table types share TableData's get_table/get_dim bodies (data_get_table / data_get_dim)", not bad,
+                   f"differs from TableData: {bad}")
+    # HTML: self.tables is appended only by _process_node, and _process_node is reached only from extract()/itself
+    # (the model walks the body once; any other caller would add tables a second time)
+    from sharepoint2text.parsing.extractors import html_extractor as H
+    htree = ast.parse(inspect.getsource(H._HtmlTextExtractor).lstrip())
+    appenders, callers = set(), set()
+    for fn in [m for m in htree.body[0].body if isinstance(m, ast.FunctionDef)]:
+        for node in ast.walk(fn):
+            if isinstance(node, ast.Call) and isinstance(node.func, ast.Attribute):
+                f = node.func
+                if f.attr in ("append", "extend", "insert") and isinstance(f.value, ast.Attribute) and f.value.attr == "tables":
+                    appenders.add(fn.name)
+                if f.attr == "_process_node":
+                    callers.add(fn.name)
+            if isinstance(node, (ast.Assign, ast.AugAssign)):
+                tg = node.targets if isinstance(node, ast.Assign) else [node.target]
+                if any(isinstance(x, ast.Attribute) and x.attr == "tables" for x in tg) and fn.name != "__init__":
+                    appenders.add(fn.name + "(assign)")
+    ctx.obligation("inventory: html self.tables is written only by _process_node, which only extract()/_process_node call",
+                   appenders == {"_process_node"} and callers <= {"_process_node", "extract"},
+                   f"writers of self.tables: {sorted(appenders)}; callers of _process_node: {sorted(callers)}")
+    # the Content classes that yield tables do so from the modelled types only
+    src = inspect.getsource(DT)
+    tree = ast.parse(src)
+    odd = []
+    for cls in [n for n in tree.body if isinstance(n, ast.ClassDef)]:
+        for fn in [m for m in cls.body if isinstance(m, ast.FunctionDef) and m.name == "iterate_tables"]:
+            for node in ast.walk(fn):
+                if isinstance(node, ast.Call) and isinstance(node.func, ast.Name) and node.func.id[:1].isupper() and node.func.id not in modelled:
+                    odd.append(f"{cls.name}.iterate_tables constructs {node.func.id}")
+    ctx.obligation("inventory: iterate_tables builds only modelled table types", not odd, "; ".join(odd))
+
+
 # ----------------------------------------------------------------------------- the check
 SC_MODES = ["never", "always", "random"]
 PRE = ("From Coq Require Import ZArith List Bool.\nFrom S2T Require Import Lib.PyStr C13.Model C13.Corr C13.ProofsHtml "
@@ -1892,7 +1998,8 @@ def run(ctx):
         "slide order: ODP _parse_odf_length_to_px is modelled bit-exactly in IEEE-754 binary64 (Coq SpecFloat; float(decimal) = correctly "
         "rounded digits/10^k, assumed < 2^53 digits, <= 22 decimals, ASCII digits) and tied by an exhaustive small-grammar correspondence; "
         "PPTX _get_shape_position is modelled over the tree with int() as oracle; bounded float theorems state their bound (d/100 unit, d <= 3000)",
-        "outside the model: DOCX anchor paragraph indices of tables, PPTX/ODP text/picture handling of the same loops, group-relative offsets "
+        "DOCX table_anchor_paragraph_indices are modelled (docx_tables_anchored) and tied by the docxanchor correspondence; "
+        "outside the model: PPTX/ODP text/picture handling of the same loops, group-relative offsets "
         "(a:chOff) which the extractor itself ignores, openpyxl/xlrd/ElementTree/html.parser parsing (third-party), PDF table heuristics (excluded by the property)",
         "RTF: regexes modelled as hand-written matchers (re_sub/re_find_all/re_split + one matcher per pattern), tied by "
         "document-, _strip_rtf_simple- and _extract_table_cells-level correspondences; assumes ASCII digits after \\u / control "
@@ -1901,15 +2008,18 @@ def run(ctx):
     ]
     ctx.assumptions += ["CPython 3.12 str/regex whitespace; int(str(n)) = n for the repeat counts the renderer writes"]
     gen_tables(ctx)
+    table_type_inventory(ctx)
 
-    ok1, _ = ctx.prove("C13/Props.v", timeout=400, deps=["C13/ProofsHtml.vo", "C13/ProofsOds.vo", "C13/ProofsSheets.vo", "C13/ProofsTree.vo", "C13/ProofsRtf.vo", "C13/ProofsOrder.vo", "C13/ProofsRows.vo", "C13/ProofsPos.vo", "C13/ProofsPptx.vo"],
+    ok1, _ = ctx.prove("C13/Props.v", timeout=400, deps=["C13/ProofsHtml.vo", "C13/ProofsOds.vo", "C13/ProofsSheets.vo", "C13/ProofsTree.vo", "C13/ProofsRtf.vo", "C13/ProofsOrder.vo", "C13/ProofsRows.vo", "C13/ProofsPos.vo", "C13/ProofsPptx.vo", "C13/ProofsAnchor.vo"],
                        expected=["C13_get_dim_is_shape", "C13_get_dim_rect", "C13_xls_get_dim_is_shape",
                                  "C13_docx_tables_flat", "C13_docx_adjacent", "C13_docx_tables_preorder", "C13_docx_toplevel_refuted", "C13_docx_table_wrapped_eq", "C13_docx_row_cells_wrapped", "C13_docx_tables_body_wrapped", "C13_docx_tables_direct_lost_wrapped",
                                  "C13_pptx_table_roundtrip", "C13_odt_tables_flat", "C13_odt_nested_refuted", "C13_odp_table_flat", "C13_odp_cell_comment_skipped",
                                  "C13_html_tables_roundtrip", "C13_html_adjacent", "C13_html_nested_refuted", "C13_html_multipara_refuted",
                                  "C13_epub_tables_roundtrip", "C13_epub_nested_refuted",
                                  "C13_ods_plain_roundtrip", "C13_ods_rle_roundtrip", "C13_ods_repeat_cap_refuted",
-                                 "C13_xlsx_sheet_partial", "C13_xlsx_empty_header_refuted", "C13_xlsx_title_row_refuted",
+                                 "C13_xlsx_sheet_partial", "C13_xlsx_sheet_exact", "C13_xlsx_body_rows_in_place", "C13_xlsx_header_cell_kept", "C13_xlsx_header_cell_blank_renamed",
+                                 "C13_docx_anchored_tables_are_tables", "C13_docx_anchors_nonneg_monotone", "C13_docx_anchors_render",
+                                 "C13_xlsx_empty_header_refuted", "C13_xlsx_title_row_refuted",
                                  "C13_xlsx_typed_header_refuted", "C13_xlsx_date_header_refuted", "C13_xlsx_typed_values",
                                  "C13_ods_cell_comment_skipped", "C13_ods_nonfinite_kept_as_text",
                                  "C13_table_rows_through_wrappers", "C13_ods_sheet_wrapped", "C13_odp_table_wrapped", "C13_slide_frames_groups",
@@ -1938,6 +2048,7 @@ def run(ctx):
     # ---------------- DOCX
     b_docx = batch("docx", "corr_docx", f"doc * xml * {T3}")
     b_docx_t = batch("docxtree", "corr_docx_tree", f"xml * {T3}")
+    batch("docxanchor", "corr_docx_anchor", f"xml * {T3} * list Z")
     for i in range(n):
         nested = i % 4 == 3
         set_selfclose(SC_MODES[i % 3], rng)
@@ -1945,6 +2056,7 @@ def run(ctx):
         tree, tabs, dims = docx_run(docx_file(docx_r_body(d)))
         check_dims(ctx, "docx", tabs, dims, dim_cases)
         b_docx.add(f"({coq_doc(d)}, {coq_nd(tree)}, {coq_tables(tabs)})", ("docx", d))
+        docx_anchor_check(ctx, B, tree, tabs, d)
         ctx.case(("docx", d), any(tabs), "docx:nested" if nested else "docx:flat")
         want = spec_top(d)
         if tabs != want:
@@ -1960,6 +2072,7 @@ def run(ctx):
         tree, tabs, dims = docx_run(docx_file(body))
         check_dims(ctx, "docx", tabs, dims, dim_cases)
         b_docx_t.add(f"({coq_nd(tree)}, {coq_tables(tabs)})", ("docxtree", nd_xml(body)))
+        docx_anchor_check(ctx, B, tree, tabs)
         ctx.case(("docxtree", nd_xml(body)), any(tabs), "docx:extra")
     # the structured documents again, with tables / rows / cells (and paragraphs) put inside content controls or w:customXml
     def docx_wrap(nd, depth=0):
@@ -1990,6 +2103,7 @@ def run(ctx):
         tree, tabs, dims = docx_run(docx_file(body))
         check_dims(ctx, "docx", tabs, dims, dim_cases)
         b_docx_t.add(f"({coq_nd(tree)}, {coq_tables(tabs)})", ("docxwrap", nd_xml(body)))
+        docx_anchor_check(ctx, B, tree, tabs)
         ctx.case(("docxwrap", nd_xml(body)), any(tabs), "docx:wrapped")
         if tabs != spec_top(d):
             ctx.finding("docx-wrapped-table-content-lost", f"DOCX: tables / rows / cells inside w:sdt or w:customXml are not all returned: got {tabs!r} want {spec_top(d)!r}",
@@ -2259,6 +2373,28 @@ def run(ctx):
         if tabs != html_spec(d):
             ctx.finding("html-table-grid-mismatch", f"HTML: iterate_tables() differs from the source grids (th header row): got {tabs!r} want {html_spec(d)!r}",
                         {"format": "html", "html": src, "got": tabs, "want": html_spec(d)})
+    CONTAINERS = [('<a href="https://example.org/x">', "</a>"), ('<a href="#t"><span>', "</span></a>"), ("<span>", "</span>"), ("<b><i>", "</i></b>"),
+                  ("<blockquote>", "</blockquote>"), ("<section><article>", "</article></section>"), ("<form>", "</form>"), ("<label>", "</label>"),
+                  ("<details><summary>s</summary>", "</details>"), ('<div><a href="y">', "</a></div>"), ("<center>", "</center>"), ("<p>", "</p>")]
+    for i in range(n // 2):
+        # simple grids, every table wrapped in a link or another container element (HTML5 block links, cards)
+        d = rhdoc(rng, "simple")
+        parts = []
+        for b in d:
+            if b[0] == "p":
+                parts.append("<p>" + htmlmod.escape(b[1], quote=False) + "</p>")
+                continue
+            rows = "".join("<tr>" + "".join("<td>" + htmlmod.escape(c[1], quote=False) + "".join(
+                f"<{a}>" + htmlmod.escape(x, quote=False) + f"</{a}>" + htmlmod.escape(u, quote=False) for a, x, u in c[2]) + "</td>" for c in r) + "</tr>" for r in b[1])
+            o, cl = CONTAINERS[(i + len(parts)) % len(CONTAINERS)]
+            parts.append(o + "<table>" + rows + "</table>" + cl)
+        src = "<html><body>" + "".join(parts) + "</body></html>"
+        tree, tabs, dims = html_run(src)
+        b_html_t.add(f"({coq_nd(tree)}, {coq_tables(tabs)})", ("htmlwrap", src))
+        ctx.case(("htmlwrap", src), any(tabs), "html:in-container")
+        if tabs != html_spec(d):
+            ctx.finding("html-table-in-container-mismatch", f"HTML: tables inside links / inline / block containers: got {tabs!r} want {html_spec(d)!r}",
+                        {"format": "html", "html": src, "got": tabs, "want": html_spec(d)})
     for i in range(n):
         src = html_extra_src(rng)
         tree, tabs, dims = html_run(src)
@@ -2353,7 +2489,8 @@ def run(ctx):
             elif si > 0 and rng.random() < 0.6:
                 g[0] = [Cell(wb[0][0][j].ctype, wb[0][0][j].value) if j < len(wb[0][0]) else xls_cells(rng) for j in range(c)]
             wb.append(g)
-        per, tabs, dims = xls_run(wb)
+        dm_ = rng.choice([0, 0, 1])          # the workbook's date system (1900 / 1904); serials recur across workbooks
+        per, tabs, dims = xls_run(wb, dm_)
         b_xls_wb.add("(" + coq_list([coq_list([coq_list([f"{{| lc_native := {coq_val(nv)}; lc_header := {coq_str(hs)} |}}" for nv, hs in row]) for row in pg]) for pg in per])
                      + ", " + coq_list([coq_vgrid(t) for t in tabs]) + ")", ("xlswb", repr(per)))
         for si, (pg, t, dm) in enumerate(zip(per, tabs, dims)):
@@ -2370,8 +2507,8 @@ def run(ctx):
                     ctx.finding("xls-duplicate-header-text-collapses-columns", "XLS: columns whose first-row texts are equal collapse into one (rows are dicts keyed by header text); the last value wins",
                                 {"format": "xls", "grid": repr(pg), "got": repr(t), "want": repr(want)})
                 else:
-                    ctx.finding("xls-sheet-grid-mismatch", f"XLS: sheet {si + 1} of {len(wb)} differs from its source grid: got {t!r} want {want!r} (all sheets: {[[hs for _, hs in q[0]] for q in per]!r})",
-                                {"format": "xls", "sheet_index": si, "workbook": repr(per), "got": repr(t), "want": repr(want)})
+                    ctx.finding("xls-sheet-grid-mismatch", f"XLS: sheet {si + 1} of {len(wb)} (date system {1900 + 4 * dm_}, workbook #{i + 1} of this process) differs from its source grid: got {t!r} want {want!r} (all sheets: {[[hs for _, hs in q[0]] for q in per]!r})",
+                                {"format": "xls", "sheet_index": si, "datemode": dm_, "workbook": repr(per), "got": repr(t), "want": repr(want)})
             if (dm[0], dm[1]) != (len(t), max((len(x) for x in t), default=0)):
                 ctx.finding("xls-get_dim-not-shape", f"XLS: get_dim() {dm} is not the shape of get_table()", {"format": "xls", "grid": repr(pg)})
         if len(tabs) != len(wb):
@@ -2517,7 +2654,7 @@ def run(ctx):
                          variants=tuple(common.ENV_VARIANTS) + ("tz-berlin",), describe=lambda c: f"{c[0]} file of {len(c[1])} bytes")
     # XLS: the stand-in workbook path (no file): same sweep on the sheet grids
     def xls_env(case):
-        return repr(xls_run(case)[1:])
+        return repr(xls_run(case, len(case) % 2)[1:])
     xls_wbs = [[[[xls_cells(rng) for _ in range(3)] for _ in range(3)] for _ in range(rng.randint(1, 2))] for _ in range(ctx.n(10, 30))]
     common.env_sweep(ctx, "tables:xls", xls_env, xls_wbs, describe=lambda c: f"xls workbook of {len(c)} sheets")
 
@@ -2562,6 +2699,7 @@ META = {
                   "Coq and replayed on the implementation. Models are tied to the code by generating real files per format.",
     "level_note": "Trusted: Coq kernel+VM; XML/HTML/openpyxl/xlrd parsing, int(), float(), whitespace set as oracles; the "
                   "hand-written models (validated differentially); harness writers. Position parsing is modelled (ODP floats bit-exactly, PPTX ints); "
-                  "third-party parsers (ElementTree, html.parser, openpyxl, xlrd) and int()/float()/whitespace sets stay oracles; DOCX table anchor indices and "
-                  "non-table shape handling are not modelled.",
+                  "third-party parsers (ElementTree, html.parser, openpyxl, xlrd) and int()/float()/whitespace sets stay oracles; "
+                  "non-table shape handling is not modelled; PDF table heuristics are out of reach (layout heuristics over pypdf text "
+                  "positions, documented as heuristic and excluded by the property's format list).",
 }
